@@ -3,7 +3,7 @@
 //! Plain function-pointer slots a harness can install. They use `core` atomics on purpose (never
 //! loom's): they add no scheduling points and no synchronisation to the code under test.
 
-use core::sync::atomic::{AtomicUsize, Ordering};
+use core::sync::atomic::{AtomicPtr, Ordering};
 
 /// `fn(base, size)`: a waker block was allocated.
 pub type AllocFn = fn(*mut u8, usize);
@@ -14,19 +14,20 @@ pub type ReleaseFn = fn(*mut u8, usize, usize) -> bool;
 /// (0 clone, 1 wake, 2 wake_by_ref, 3 drop) with the item pointer and the header it resolves to.
 pub type VtableFn = fn(u8, *const (), *const ());
 
-static ALLOC: AtomicUsize = AtomicUsize::new(0);
-static RELEASE: AtomicUsize = AtomicUsize::new(0);
-static VTABLE: AtomicUsize = AtomicUsize::new(0);
+// stored as pointers (not integers) so that the function pointers keep their provenance under Miri
+static ALLOC: AtomicPtr<()> = AtomicPtr::new(core::ptr::null_mut());
+static RELEASE: AtomicPtr<()> = AtomicPtr::new(core::ptr::null_mut());
+static VTABLE: AtomicPtr<()> = AtomicPtr::new(core::ptr::null_mut());
 
 pub fn install(alloc: AllocFn, release: ReleaseFn, vtable: VtableFn) {
-    ALLOC.store(alloc as usize, Ordering::SeqCst);
-    RELEASE.store(release as usize, Ordering::SeqCst);
-    VTABLE.store(vtable as usize, Ordering::SeqCst);
+    ALLOC.store(alloc as *mut (), Ordering::SeqCst);
+    RELEASE.store(release as *mut (), Ordering::SeqCst);
+    VTABLE.store(vtable as *mut (), Ordering::SeqCst);
 }
 
 pub(crate) fn block_alloc(p: *mut u8, size: usize) {
     let f = ALLOC.load(Ordering::Relaxed);
-    if f != 0 {
+    if !f.is_null() {
         let f: AllocFn = unsafe { core::mem::transmute(f) };
         f(p, size)
     }
@@ -34,7 +35,7 @@ pub(crate) fn block_alloc(p: *mut u8, size: usize) {
 
 pub(crate) fn block_release(p: *mut u8, size: usize, align: usize) -> bool {
     let f = RELEASE.load(Ordering::Relaxed);
-    if f != 0 {
+    if !f.is_null() {
         let f: ReleaseFn = unsafe { core::mem::transmute(f) };
         f(p, size, align)
     } else {
@@ -44,7 +45,7 @@ pub(crate) fn block_release(p: *mut u8, size: usize, align: usize) -> bool {
 
 pub(crate) fn vtable_entry(kind: u8, item: *const (), header: *const ()) {
     let f = VTABLE.load(Ordering::Relaxed);
-    if f != 0 {
+    if !f.is_null() {
         let f: VtableFn = unsafe { core::mem::transmute(f) };
         f(kind, item, header)
     }
